@@ -517,6 +517,8 @@ func rulesC14(c *Ctx) {
 	c14Confinement(c)
 	c14Escape(c)
 	c14LiveReads(c)
+	c.Rule("user-function")
+	c01Leaf(c)
 	c.Rule("fresh-executors")
 	c01Self(c)
 	execStateMethods(c, nil)
